@@ -34,10 +34,12 @@ type User struct {
 	Id     int64  `sql:",primary"`
 	OrgId  int64
 	Name   string
-	Nick   *string
-	Age    int32
-	Kind   Kind
-	Active bool
+	// a field that is no column, in front of columns the batcher matches on
+	Scratch string `sql:"-"`
+	Nick    *string
+	Age     int32
+	Kind    Kind
+	Active  bool
 }
 
 var userCols = []string{"digest", "id", "org_id", "name", "nick", "age", "kind", "active"}
@@ -193,12 +195,14 @@ func batchingBody(c *runner.Ctx) {
 	conn := sql.OpenDB(mconnector{d})
 	defer conn.Close()
 	db := sqlgen.NewDB(conn, newSchema())
+	limited := false
 	if c.Choose(4, "limited-handle") == 1 {
 		// a handle scoped to one tenant: a call whose filter does not comply is
 		// refused, batched or not
 		org := int64(1 + c.Choose(2, "limit-org"))
 		if ldb, err := db.WithShardLimit(sqlgen.Filter{"org_id": org}); err == nil {
 			db = ldb
+			limited = true
 			c.Describe("handle limited to org_id=%d", org)
 			c.Probe("limited-handle")
 		}
@@ -228,6 +232,34 @@ func batchingBody(c *runner.Ctx) {
 		}
 	}
 	bctx := batch.WithBatching(context.Background())
+	// the calls may all run inside one transaction that has uncommitted writes
+	// of its own (batching context and transaction context combined): they must
+	// see those writes, as each of them does on its own
+	ownCtx := context.Background()
+	if c.Choose(5, "in-transaction") == 1 && !limited {
+		d.isolate = true
+		tctx, tx, err := db.WithTx(bctx)
+		if err != nil {
+			c.Violate("begin-failed", "%v", err)
+			return
+		}
+		defer tx.Rollback()
+		c.Probe("calls-inside-a-transaction")
+		c.Describe("all calls inside one transaction with uncommitted writes")
+		if _, err := db.InsertRow(tctx, &User{Digest: []byte("d1"), OrgId: 1, Name: "ann", Nick: strp("x"), Age: 20, Kind: "k1", Active: true}); err != nil {
+			c.Violate("tx-write-failed", "%v", err)
+			return
+		}
+		if _, err := db.InsertRow(tctx, &User{Digest: []byte("d2"), OrgId: 2, Name: "ab", Age: 30, Kind: "k2"}); err != nil {
+			c.Violate("tx-write-failed", "%v", err)
+			return
+		}
+		bctx = tctx
+		if ownCtx, err = db.WithExistingTx(context.Background(), tx); err != nil {
+			c.Violate("begin-failed", "%v", err)
+			return
+		}
+	}
 	grid := []time.Duration{0, 0, 0, 500 * time.Microsecond, time.Millisecond, 2 * time.Millisecond, 19 * time.Millisecond, 21 * time.Millisecond}
 	finished := 0
 	for _, call := range calls {
@@ -271,12 +303,12 @@ func batchingBody(c *runner.Ctx) {
 		}
 		if call.single {
 			var u *User
-			call.ownErr = db.QueryRow(context.Background(), &u, call.filter, nil)
+			call.ownErr = db.QueryRow(ownCtx, &u, call.filter, nil)
 			if u != nil {
 				call.ownRows = []*User{u}
 			}
 		} else {
-			call.ownErr = db.Query(context.Background(), &call.ownRows, call.filter, nil)
+			call.ownErr = db.Query(ownCtx, &call.ownRows, call.filter, nil)
 		}
 		if call.err != nil && strings.Contains(call.err.Error(), "SIM-row-stream-broken") {
 			// the statement serving this call broke off: the call failed, which is
